@@ -499,7 +499,12 @@ def ns_programs(tier: str) -> list[tuple[str, dict[str, str]]]:
     stmts.append("{% include 'ni' %}")
     stmts.append("{% macro nm %}{% assign inmacro = big %}{{ inmacro | size }}{% endmacro %}{% call nm %}")
     stmts.append("{% for i in (1..3) %}{% assign loopv = i | append: big %}{% endfor %}")
-    templates = {"np": "{% assign inpartial = big | append: big %}{{ inpartial | size }}", "ni": "{% assign ininclude = big %}"}
+    # three live scopes: names bound in the MIDDLE one count while the innermost runs
+    stmts.append("{% render 'np2' %}")
+    stmts.append("{% render 'np3' %}")
+    stmts.append("{% macro nm2 %}{% assign inm2 = big | append: 'm2' %}{% render 'np' %}{% endmacro %}{% call nm2 %}")
+    templates = {"np": "{% assign inpartial = big | append: big %}{{ inpartial | size }}", "ni": "{% assign ininclude = big %}",
+                 "np2": "{% assign mid = big | append: 'mid' %}{% render 'np' %}{{ mid | size }}", "np3": "{% capture c3 %}{{ big }}{{ big }}{% endcapture %}{% render 'np2' %}{{ c3 | size }}"}
     progs = []
     maxlen = 2 if tier == "quick" else 3
     for r in range(1, maxlen + 1):
@@ -513,7 +518,12 @@ class _PeakContext(RenderContext):
 
     def assign(self, key: str, val: object) -> None:
         super().assign(key, val)
-        s = self.get_size_of_locals()
+        # the harness's own measure: the local names of every live scope, from this one up to the root (not the carry
+        # the implementation hands from scope to scope, which is what is being checked)
+        s, ctx = 0, self
+        while ctx is not None:
+            s += sum(sys.getsizeof(obj, 1) for obj in ctx.locals.values())
+            ctx = ctx.parent
         if s > _PeakContext.peak:
             _PeakContext.peak = s
 
